@@ -745,7 +745,7 @@ pub proof fn lemma_all_singletons(a: MzAut, p: Partition)
                 else if k1 < nb - 1 { if k1 + 1 != bx { assert(bh_disjoint(p.base.block@[k1 + 1], p.base.block@[bx])); } }
                 else if k2 < nb - 1 { if k2 + 1 != bx { assert(bh_disjoint(p.base.block@[k2 + 1], p.base.block@[bx])); } }
             }
-            lemma_pigeon(q, a.n as int);
+            lemma_pigeonhole(q, a.n as int);
         }
     }
 }
